@@ -34,7 +34,7 @@ import (
 )
 
 type sOp struct {
-	Kind  string // write, snapshot, compact, reopen, sleep, opdelete, failmeta, failstore, read
+	Kind  string // write, snapshot, compact, reopen, sleep, opdelete, failmeta, failstore, read, disable, enable
 	Shard int
 	Batch []model.Point
 	Dur   time.Duration
@@ -57,7 +57,19 @@ func genStore(t *rapid.T) *storePlan {
 	for i := 0; i < n; i++ {
 		l := fmt.Sprintf("st.op%d", i)
 		o := sOp{Shard: rapid.IntRange(0, p.NShards-1).Draw(t, l+".shard")}
-		switch k := rapid.IntRange(0, 19).Draw(t, l+".kind"); {
+		switch k := rapid.IntRange(0, 22).Draw(t, l+".kind"); {
+		case k >= 20:
+			// a shard is taken offline for a while (as the snapshotter does
+			// around an online restore) and enabled again later
+			o.Kind = rapid.SampledFrom([]string{"disable", "enable", "offline", "offline"}).Draw(t, l+".dk")
+			if o.Kind == "offline" {
+				// offline across enforcement passes, then back: mostly one of
+				// the younger shards, while older ones expire
+				if rapid.IntRange(0, 2).Draw(t, l+".last") > 0 {
+					o.Shard = p.NShards - 1
+				}
+				o.Dur = time.Duration(rapid.IntRange(31, 300).Draw(t, l+".min")) * time.Minute
+			}
 		case k < 7:
 			o.Kind = "write"
 			o.Batch = storesim.GenBatch(t, 5, l)
@@ -75,6 +87,7 @@ func genStore(t *rapid.T) *storePlan {
 		case k < 18:
 			o.Kind = "failmeta"
 			o.N = rapid.IntRange(1, 3).Draw(t, l+".n")
+
 		case k < 19:
 			o.Kind = "failstore"
 			o.N = rapid.IntRange(1, 3).Draw(t, l+".n")
@@ -97,6 +110,7 @@ type storeWorld struct {
 	groups    []uint64 // shard group id per plan index
 	models    []*model.Shard
 	gone      []bool // removed by the service
+	disabled  []bool // taken offline by the plan (not readable until enabled again)
 	goneKeys  map[string]bool
 	failStore int
 }
@@ -202,6 +216,14 @@ func (sw *storeWorld) checkLive(where string) bool {
 			run.Fail("removed-shard-is-back", "store", "%s: shard %d was removed by retention enforcement and is in the store again", where, id)
 			return false
 		}
+		if sw.disabled[i] {
+			// offline: its data is judged once it is enabled again; its series
+			// may or may not be listed meanwhile
+			for k := range sw.models[i].Series {
+				u.MaybeListed[k] = true
+			}
+			continue
+		}
 		obs, err := sw.sim.ReadIterators(id, storesim.FullRange, nil)
 		if err != nil {
 			run.Fail("read-error", "store", "%s: shard %d: %v", where, id, err)
@@ -236,6 +258,12 @@ func (sw *storeWorld) checkLive(where string) bool {
 	for k := range u.MaybeListed {
 		if u.Series[k] != nil {
 			delete(u.MaybeListed, k)
+		}
+	}
+	for i := range sw.ids {
+		if sw.disabled[i] && !sw.gone[i] {
+			// the database-wide listings refuse to answer while a shard is offline
+			return true
 		}
 	}
 	l, err := sw.sim.List()
@@ -293,6 +321,7 @@ func execStore(run *core.Run, p *storePlan) {
 		sw.ids = append(sw.ids, g.Shards[0].ID)
 		sw.models = append(sw.models, model.NewShard())
 		sw.gone = append(sw.gone, false)
+		sw.disabled = append(sw.disabled, false)
 	}
 	sw.root = filepath.Join(run.Scratch, "node")
 	sw.opts = storesim.Opts{Index: p.Index}
@@ -338,9 +367,46 @@ func execStore(run *core.Run, p *storePlan) {
 		run.Op("store-" + o.Kind)
 		id := sw.ids[o.Shard]
 		switch o.Kind {
+		case "offline":
+			sw.smu.Lock()
+			ok := sw.sim.Store.Shard(id) != nil && !sw.disabled[o.Shard] && sw.sim.Store.SetShardEnabled(id, false) == nil
+			if ok {
+				sw.disabled[o.Shard] = true
+			}
+			sw.smu.Unlock()
+			if !ok {
+				continue
+			}
+			run.Probe("store-shard-taken-offline")
+			run.Logf("op%d shard %d offline for %v", i, id, o.Dur)
+			time.Sleep(o.Dur)
+			sw.smu.Lock()
+			if sw.sim.Store.Shard(id) != nil {
+				if err := sw.sim.Store.SetShardEnabled(id, true); err != nil {
+					run.Logf("op%d enable shard %d: %v", i, id, err)
+				}
+			}
+			sw.disabled[o.Shard] = false
+			sw.smu.Unlock()
+			if !sw.checkLive(fmt.Sprintf("op%d after shard %d was offline for %v", i, id, o.Dur)) {
+				return
+			}
+		case "disable", "enable":
+			sw.smu.Lock()
+			if sw.sim.Store.Shard(id) != nil {
+				on := o.Kind == "enable"
+				if err := sw.sim.Store.SetShardEnabled(id, on); err == nil {
+					sw.disabled[o.Shard] = !on
+					run.Logf("op%d shard %d enabled=%v", i, id, on)
+					if !on {
+						run.Probe("store-shard-taken-offline")
+					}
+				}
+			}
+			sw.smu.Unlock()
 		case "write", "snapshot", "compact", "read":
 			sw.smu.Lock()
-			if sw.sim.Store.Shard(id) == nil {
+			if sw.sim.Store.Shard(id) == nil || sw.disabled[o.Shard] {
 				sw.smu.Unlock()
 				run.Logf("op%d %s shard %d: shard is gone, skipped", i, o.Kind, id)
 				continue
@@ -384,6 +450,9 @@ func execStore(run *core.Run, p *storePlan) {
 				return
 			}
 			sw.sim = ns
+			for k := range sw.disabled {
+				sw.disabled[k] = false // a restart opens every shard enabled
+			}
 			sw.smu.Unlock()
 			run.Probe("reopen")
 			run.Logf("op%d reopen", i)
@@ -428,6 +497,14 @@ func execStore(run *core.Run, p *storePlan) {
 	w.mu.Unlock()
 	sw.smu.Lock()
 	sw.failStore = 0
+	for k, id := range sw.ids {
+		if sw.disabled[k] && sw.sim.Store.Shard(id) != nil {
+			if err := sw.sim.Store.SetShardEnabled(id, true); err != nil {
+				run.Logf("enable shard %d: %v", id, err)
+			}
+		}
+		sw.disabled[k] = false
+	}
 	sw.smu.Unlock()
 	time.Sleep(3*interval + time.Minute)
 	if !sw.checkLive("after the last pass") {
@@ -517,6 +594,8 @@ func describeStore(p *storePlan) interface{} {
 			ops = append(ops, fmt.Sprintf("write(shard%d,%d points)", o.Shard+1, len(o.Batch)))
 		case "sleep":
 			ops = append(ops, fmt.Sprintf("sleep(%v)", o.Dur))
+		case "offline":
+			ops = append(ops, fmt.Sprintf("offline(shard%d,%v)", o.Shard+1, o.Dur))
 		case "failmeta", "failstore":
 			ops = append(ops, fmt.Sprintf("%s(n=%d)", o.Kind, o.N))
 		case "reopen":
